@@ -115,6 +115,7 @@ type scfg struct {
 	ExtraHeader  bool     `json:"extraHeader"`
 	ExtMode      string   `json:"extMode"`   // none | select | negotiate
 	RejectExt    string   `json:"rejectExt"` // reject=negotiate: the only extension the negotiator objects to ("" = all)
+	Custom       string   `json:"custom"`    // Upgrader.ProtocolCustom: "" | "select" (the callback parses the header itself) | "refuse" (reports it malformed)
 	Rbuf         int      `json:"rbuf"`      // Upgrader.ReadBufferSize (transport detail, not judged)
 	Wbuf         int      `json:"wbuf"`      // Upgrader.WriteBufferSize
 	Chunk        int      `json:"chunk"`     // the request arrives in reads of at most this many bytes (0: at once)
@@ -366,9 +367,35 @@ func buildUpgrader(c scfg) ws.Upgrader {
 	if c.HasSelector {
 		u.Protocol = func(p []byte) bool { return inList(c.Accept, string(p)) }
 	}
+	switch c.Custom {
+	case "select":
+		u.Protocol = nil
+		u.ProtocolCustom = func(v []byte) (string, bool) {
+			for _, t := range strings.Split(string(v), ",") {
+				if t = strings.TrimSpace(t); inList(c.Accept, t) {
+					return t, true
+				}
+			}
+			return "", true
+		}
+	case "refuse":
+		u.ProtocolCustom = func(v []byte) (string, bool) { return "", false }
+	}
 	switch c.ExtMode {
 	case "select":
 		u.Extension = func(o httphead.Option) bool { return inList(c.ExtAccept, string(o.Name)) }
+	case "custom": // the callback parses the header value itself and appends what it accepts
+		u.ExtensionCustom = func(v []byte, acc []httphead.Option) ([]httphead.Option, bool) {
+			for _, t := range strings.Split(string(v), ",") {
+				name := strings.TrimSpace(strings.SplitN(t, ";", 2)[0])
+				if inList(c.ExtAccept, name) {
+					acc = append(acc, httphead.Option{Name: []byte(name)})
+				}
+			}
+			return acc, true
+		}
+	case "customrefuse":
+		u.ExtensionCustom = func(v []byte, acc []httphead.Option) ([]httphead.Option, bool) { return acc, false }
 	case "negotiate":
 		u.Negotiate = func(o httphead.Option) (httphead.Option, error) {
 			if c.Reject == "negotiate" && (c.RejectExt == "" || c.RejectExt == string(o.Name)) {
